@@ -781,3 +781,14 @@ BENIGN += [
 MUTANTS += [
     {"name": "helper-handed-the-table-strips-the-symbols", "edits": _FILL_EDITS + [{"file": SP, "old": "    @classmethod\n    def reset(cls) -> None:\n", "new": _FILL % "[n.strip() for n in names]"}], "rules": ["R11"]},
 ]
+
+# ---- wave 4: the length order in its other spellings ----
+_COMP = "        components = sorted(elements + symbols, key=len, reverse=True)\n"
+BENIGN += [
+    {"name": "symbols-sorted-by-negative-length", "file": SP, "old": _COMP, "new": "        components = sorted(elements + symbols, key=lambda sym: -len(sym))\n"},
+    {"name": "symbols-sorted-by-length-then-text-reversed", "file": SP, "old": _COMP, "new": "        components = sorted(elements + symbols, key=lambda sym: (len(sym), sym), reverse=True)\n"},
+]
+MUTANTS += [
+    {"name": "symbols-sorted-by-length-lambda-ascending", "file": SP, "old": _COMP, "new": "        components = sorted(elements + symbols, key=lambda sym: len(sym))\n", "rules": ["R1"]},
+    {"name": "symbols-sorted-by-negative-length-reversed", "file": SP, "old": _COMP, "new": "        components = sorted(elements + symbols, key=lambda sym: -len(sym), reverse=True)\n", "rules": ["R1"]},
+]
